@@ -401,10 +401,21 @@ def execute(scenario, chooser):
 
     def main(sim):
         from web.web_app import WebApp
+        from bardolph.lib import clock as clock_mod, injection, i_lib
         net, ls, ok = env.build_world(
             sim, sc['population'],
             settings={'sleep_time': tick, 'manifest_file_name': None})
         st['net'] = net
+        armed = st.setdefault('armed', {})
+
+        class RecClock(clock_mod.Clock):
+            def start(self):
+                me = core.me()
+                if me is not None and me.role == 'job' and \
+                        me.name not in armed:
+                    armed[me.name] = sim.evno
+                super().start()
+        injection.bind(RecClock).to(i_lib.Clock)
         wa = WebApp()
         jc = wa._jobs
         main_job = RecJob('main')
@@ -418,14 +429,11 @@ def execute(scenario, chooser):
             j.load_string(text)
             fjobs.append(j)
         st['mark'] = sim.evno
-        armed = st.setdefault('armed', {})
-        arm_tag = tuple(tgt['clock_start'])
-
-        def arm_watch(s, cur):
-            if cur is not None and cur.role == 'job' and \
-                    cur.name not in armed and tuple(cur.tag[:2]) == arm_tag:
-                armed[cur.name] = s.evno
-        sim.watch.append(arm_watch)
+        # when has a job thread armed its run loop?  Machine.run() sets the
+        # flag and then starts its clock: a recording subclass of the real
+        # Clock notes the first start() per job thread (robust against line
+        # shifts in machine.py)
+        st.setdefault('armed', {})
         if sc.get('bg'):
             agent = jc.spawn_job(main_job, 'main')
         else:
